@@ -174,8 +174,11 @@ class AirTouchSocket(Generic[comms.Hdr]):
     async def close(self) -> None:
         """Close the socket to the AirTouch."""
         if self.is_open:
-            await self._disconnect()
+            # Mark the socket as closed before disconnecting. A connection attempt
+            # that completes while the disconnect is in progress is then dropped
+            # instead of being adopted by a socket that is about to be closed.
             self.is_open = False
+            await self._disconnect()
 
     async def send(self, message: comms.Message, retry_policy: RetryPolicy) -> None:
         """Send a message to the AirTouch.
